@@ -1,6 +1,6 @@
 from vlib import Job
 
-FUNCS = ["parsec_vpmap_init", "parsec_vpmap_init_from_flat", "parsec_vpmap_init_from_parameters", "parsec_vpmap_get_nb_vp",
+FUNCS = ["parsec_find_core_by_idx", "parsec_vpmap_init", "parsec_vpmap_init_from_flat", "parsec_vpmap_init_from_parameters", "parsec_vpmap_get_nb_vp",
          "parsec_vpmap_get_nb_total_threads", "parsec_vpmap_get_vp_threads", "parsec_vpmap_get_vp_thread_cores",
          "parsec_vpmap_get_vp_thread_affinity", "parsec_vpmap_fini"]
 OUT = ["parsec_vpmap_init_from_file", "parsec_vpmap_init_from_hardware_affinity"]   # contracts with precondition false: proved unreachable
@@ -53,4 +53,7 @@ def jobs(tier):
     for (n, p_) in [(2, 2), (1, 1)] + ([(3, 2)] if tier == "thorough" else []):
         J.append(Job("init.rr.n%d.p%d" % (n, p_), "h_vpmap.c", entry="h_rr", defines={"NBC": "(2)", "HWC": 4, "RRN": n, "RRP": p_}, unwind=10,
                      bounded=b, functions=FUNCS, min_obligations=2))
+    # relative index -> logical core of the allowed mask (parsec.c), complete over all 64-bit masks and all idx >= 0
+    J.append(Job("find_core_by_idx", "h_core.c", entry="h_find_core", unwind=(34 if tier == "thorough" else 18), defines={"NBITS": (32 if tier == "thorough" else 16)}, functions=["parsec_find_core_by_idx"],
+                 min_obligations=3, timeout=900, bounded="allowed masks over the first 16 (quick) / 32 (thorough) cores, every mask and every index"))
     return J
